@@ -106,6 +106,7 @@ func checkC18(r *core.Run) {
 		checkGenesisFields(r, m)
 		checkParamKeys(r, m)
 		ruleExportUnmodified(r, "E6-all", m)
+		ruleGenesisPairs(r, "E6-pair", m)
 	}
 	r.Floor("written_prefixes", total, 26)
 	r.Floor("genesis_modules", len(mods), 6)
@@ -598,4 +599,157 @@ func ruleExportUnmodified(r *core.Run, id, m string) {
 		}
 	}
 	r.Count("export_stores_scanned", n)
+}
+
+// ruleGenesisPairs (E6-pair): for every scalar (non-list) GenesisState field F
+// that ExportGenesis assigns from a keeper getter, InitGenesis hands
+// genState.F to a setter that writes the very store prefix the getter reads.
+// A counter restored from the wrong field (or two fields swapped) passes every
+// presence check but restarts the chain with a wrong counter.
+func ruleGenesisPairs(r *core.Run, id, m string) {
+	gs := r.P.LookupType(prog.ModulePath+"/x/"+m+"/types", "GenesisState")
+	exp := genesisFunc(r, m, "ExportGenesis")
+	imp := genesisFunc(r, m, "InitGenesis")
+	if gs == nil || exp == nil || imp == nil {
+		r.Undecide(id, core.Key(id, m, "anchor"), "", "GenesisState / ExportGenesis / InitGenesis of module "+m+" not found")
+		return
+	}
+	st, _ := gs.Underlying().(*types.Struct)
+	if st == nil {
+		return
+	}
+	resE, resI := r.Resolver(exp), r.Resolver(imp)
+	prefixes := func(fs []*ssa.Function, write bool) map[string]bool {
+		out := map[string]bool{}
+		for _, e := range r.Eff.Reach(fs...) {
+			if !strings.HasPrefix(e.Kind, "store.") {
+				continue
+			}
+			if write == e.IsWrite() {
+				out[eff.StoreOwner(e)+":"+e.Prefix] = true
+			}
+		}
+		return out
+	}
+	n := 0
+	for i := 0; i < st.NumFields(); i++ {
+		fn := st.Field(i).Name()
+		if strings.HasPrefix(fn, "XXX_") || fn == "Params" {
+			continue
+		}
+		if _, isSlice := st.Field(i).Type().Underlying().(*types.Slice); isSlice {
+			continue
+		}
+		// export: genesis.F = getter(ctx)
+		var getter []*ssa.Function
+		for _, b := range exp.Blocks {
+			for _, ins := range b.Instrs {
+				if sto, ok := ins.(*ssa.Store); ok {
+					if fa, ok := sto.Addr.(*ssa.FieldAddr); ok && namedIs(fa.X.Type(), gs) && fa.Field == i {
+						v := sto.Val
+						if ex, ok := v.(*ssa.Extract); ok {
+							v = ex.Tuple
+						}
+						if c, ok := v.(*ssa.Call); ok {
+							_, cs := resE.CalleeName(&c.Call)
+							getter = cs
+						}
+					}
+				}
+			}
+		}
+		if len(getter) == 0 {
+			continue // not a stored scalar (e.g. PortId handled by E6-field only)
+		}
+		R := prefixes(getter, false)
+		// import: calls receiving genState.F
+		W := map[string]bool{}
+		var setters []string
+		for _, b := range imp.Blocks {
+			for _, ins := range b.Instrs {
+				c, ok := ins.(ssa.CallInstruction)
+				if !ok {
+					continue
+				}
+				uses := false
+				for _, a := range c.Common().Args {
+					v := a
+					if u, ok := v.(*ssa.UnOp); ok {
+						v = u.X
+					}
+					switch x := v.(type) {
+					case *ssa.FieldAddr:
+						if namedIs(x.X.Type(), gs) && x.Field == i {
+							uses = true
+						}
+					case *ssa.Field:
+						if namedIs(x.X.Type(), gs) && x.Field == i {
+							uses = true
+						}
+					}
+				}
+				if !uses {
+					continue
+				}
+				name, cs := resI.CalleeName(c.Common())
+				setters = append(setters, name)
+				for p := range prefixes(cs, true) {
+					W[p] = true
+				}
+			}
+		}
+		// other writers of the same prefix inside InitGenesis (they overwrite what was restored, whatever the order)
+		var others []string
+		for _, b := range imp.Blocks {
+			for _, ins := range b.Instrs {
+				c, ok := ins.(ssa.CallInstruction)
+				if !ok {
+					continue
+				}
+				name, cs := resI.CalleeName(c.Common())
+				isSetter := false
+				for _, sn := range setters {
+					if sn == name {
+						isSetter = true
+					}
+				}
+				if isSetter || len(cs) == 0 {
+					continue
+				}
+				wp := prefixes(cs, true)
+				for p := range R {
+					if wp[p] {
+						others = append(others, name)
+					}
+				}
+			}
+		}
+		if len(others) > 0 {
+			r.Violate(id, core.Key(id, m+".GenesisState."+fn, "not overwritten during import"), r.P.FuncPos(imp), fmt.Sprintf("InitGenesis of %s restores GenesisState.%s but also calls %s, which writes the same record: the imported value is replaced by a derived one (e.g. last id + 1 instead of the exported counter), so a re-export differs and identifiers already handed out are reused", m, fn, strings.Join(dedupe(others), ", ")))
+		} else {
+			r.Discharge(id, core.Key(id, m+".GenesisState."+fn, "not overwritten during import"), r.P.FuncPos(imp), "no other call in InitGenesis writes that record")
+		}
+		n++
+		key := core.Key(id, m+".GenesisState."+fn, "restored to the key it was read from")
+		common := ""
+		for p := range R {
+			if W[p] {
+				common = p
+			}
+		}
+		var rl []string
+		for p := range R {
+			rl = append(rl, p)
+		}
+		sort.Strings(rl)
+		switch {
+		case len(R) == 0:
+			continue
+		case common != "":
+			r.Discharge(id, key, r.P.FuncPos(imp), fmt.Sprintf("exported from %s, imported through %s into the same prefix %s", strings.Join(rl, ","), strings.Join(setters, ","), common))
+		default:
+			r.Violate(id, key, r.P.FuncPos(imp), fmt.Sprintf("GenesisState.%s of module %s is exported from store prefix %s, but InitGenesis never hands genState.%s to a setter of that prefix (it is passed to: %s): after a genesis restart that record holds another field's value", fn, m, strings.Join(rl, ","), fn, strings.Join(setters, ",")))
+		}
+	}
+	r.Count("genesis_scalar_pairs_"+m, n)
 }
